@@ -19,7 +19,7 @@ RULE = ("Hypothesis draws a window strategy, a series of 2..60 points (six spaci
 ASSUMPTIONS = ["'differs from the average' means |z - y_k| > 1e-12 * max(|y_{k-1}|,|y_k|,|y_{k+1}|) (one-ulp noise of "
                "y0*d/d is not a difference)",
                "monotonicity clause asserted for exp >= 0.14 only (known finding KF-1)",
-               "count clause asserted when neighbouring non-zero jumps differ by at most 2**30 (known finding KF-2)"]
+               "count clause asserted when the adaptive factor (jump ratio ** adaptive_smooth) lies in [2**-30, 2**30] (known finding KF-2)"]
 TECHNIQUE = "Hypothesis-generated inputs against validity predicates on the recreated values (no reference model)"
 LEVEL_TEXT = ("Randomized exploration with validity predicates that admit every output the statement allows: "
               "bounds by the neighbouring averages, plateau structure and size, monotone approach; exact "
@@ -39,7 +39,8 @@ def window_body(ctx, case):
     monotone_ok = case["strategy"] not in gens.EXP or exp >= KF1_EXP
     if not monotone_ok:
         ctx.count("excluded_known_KF1")
-    ratio_ok = case["strategy"] not in gens.ADAPTIVE or gens.jump_ratio_ok(y)
+    ratio_ok = case["strategy"] not in gens.ADAPTIVE or gens.jump_ratio_ok(
+        y, smooth=case["kw"].get("adaptive_smooth", 1.0))
     if not ratio_ok:
         ctx.count("excluded_known_KF2")
     nontrivial = False
@@ -65,6 +66,14 @@ def window_body(ctx, case):
         if ratio_ok and p + s > a - 1:
             raise Violation(f"interval {k}: {p + s} samples differ from the average, more than a-1 = {a - 1}",
                             detail=dict(seg=seg.tolist(), neighbours=[left, yk, right], kw=case["kw"]))
+        if p + s >= n:
+            # only reachable inside the KF-2 region (count clause suspended): no plateau sample is left, so border
+            # runs cannot be told apart; every value must still lie between the three averages involved
+            lo_a, hi_a = min(left, yk, right) - thr, max(left, yk, right) + thr
+            if not all(lo_a <= v <= hi_a for v in seg):
+                raise Violation(f"interval {k}: values outside the hull of the neighbouring averages",
+                                detail=dict(seg=seg.tolist(), neighbours=[left, yk, right]))
+            continue
         lo_l, hi_l = min(left, yk) - thr, max(left, yk) + thr
         for i in range(p):
             if not (lo_l <= seg[i] <= hi_l):
